@@ -38,6 +38,9 @@ let () =
           let nl = next () in
           List.init nl (fun _ -> let k = next () in let kind = next () in (k, kind))) in
         let ts = List.map (List.map (fun (k, _) -> nat_of_int k)) ts_raw in
+        (* modes 0, 5, 6, 7 and 2: next to the hand-written model, the interpreter of C12/ProgModel.v runs the program
+           regenerated from the Rust source *)
+        let pts = List.map (List.map (fun (k, kind) -> (nat_of_int k, nat_of_int kind))) ts_raw in
         let nk = next () in
         let keys_raw = List.init nk (fun _ ->
           let su = next () in let oc = next () in let cf = next () in
@@ -46,6 +49,7 @@ let () =
           ((nat_of_int su, outcome_of_int oc), nat_of_int leaf_of_cf.(cf))) keys_raw in
         let ns = next () in
         let sched = List.init ns (fun _ -> next ()) in
+        let agree = ref true in
         let b = Buffer.create 256 in
         let add = Buffer.add_string b in
         let pn n = string_of_int (int_of_nat n) in
@@ -56,6 +60,7 @@ let () =
           Printf.sprintf "%s:%d:%d" (pn l) (bi (stat_loaded oc)) (bi (stat_corrupt oc))) st in
         if mode = 0 then begin
           let o = run_case ts scripts (nat_of_int nleaf) (List.map nat_of_int sched) in
+          agree := (o = run_pcase pts scripts (nat_of_int nleaf) (List.map nat_of_int sched));
           if o_hung o then add "HUNG;" else add "OK;";
           add (join "." pn (o_log o)); add ";";
           add (pn (o_mid_req o) ^ "/" ^ pn (o_mid_proc o) ^ "/" ^ pn (o_mid_done o)); add ";";
@@ -64,6 +69,7 @@ let () =
           add (pstats (o_stats o)); add ";"; add (pn (o_rounds o))
         end else if mode = 5 || mode = 6 || mode = 7 then begin
           let o = run_case ts scripts (nat_of_int nleaf) [] in
+          agree := (o = run_pcase pts scripts (nat_of_int nleaf) []);
           if o_hung o then add "HUNG;" else add "OK;";
           add (join "." string_of_int (List.sort compare (List.map int_of_nat (o_log o)))); add ";-;";
           add (pres (o_results o)); add ";";
@@ -79,6 +85,9 @@ let () =
               ((lk, nat_of_int su), (mask lsr kind) land 1 = 1)) [0; 1; 2]) keys_raw) in
           let fts = List.map (List.map (fun (k, kind) -> (nat_of_int k, nat_of_int kind))) ts_raw in
           let o = run_fcase fts fscripts in
+          (let po = run_pfcase fts fscripts in
+           (* the file closure has no counters: compare the slot part *)
+           agree := (w_log o = w_log po && w_results o = w_results po && w_trace o = w_trace po && w_fuel o = w_fuel po));
           let has_lk fk = (match List.nth_opt fscripts fk with Some ((lk, _), _) -> lk | None -> false) in
           if w_fuel o then add "HUNG;" else add "OK;";
           let log = List.sort compare (List.filter has_lk (List.map int_of_nat (w_log o))) in
@@ -98,7 +107,9 @@ let () =
           add (pstats (w_stats o)); add ";";
           add (if mode = 4 then join "." pn (w_trace o) else "0")
         end;
-        add ";-";
+        (* the hand-written model (the printed answer) and the interpreter on the regenerated program must agree
+           (c12_source_program_refines_model says they do while the program is the canonical one) *)
+        add (if !agree then ";-" else ";program-differs-from-model");
         print_endline (Buffer.contents b)
       end
     done
